@@ -255,6 +255,14 @@ func (d *DS) Query(ctx context.Context, q dsq.Query) (dsq.Results, error) {
 			}
 			if err := d.point(ctx, "query-next", fmt.Sprint(i)); err != nil {
 				closed = true
+				if !errors.Is(err, ErrInjected) && d.S != nil && d.S.Buggify("query-silent-cancel") {
+					// channel-based Results implementations (dsq.ResultsWithContext, as used
+					// by LevelDB/flatfs style datastores) just stop producing when the
+					// query context is cancelled: the consumer sees the end of the
+					// enumeration, not an error
+					d.S.Fault("enumeration-silently-truncated-by-cancel")
+					return dsq.Result{}, false
+				}
 				if errors.Is(err, ErrInjected) && d.S != nil {
 					d.S.Probe(fmt.Sprintf("enumeration cut at %d of %d", i, len(entries)))
 				}
